@@ -399,7 +399,7 @@ def check_writers(ctx, rule, attr, allowed, floor=1, aliases_ok=True, why=""):
 
 
 # ------------------------------------------------------------------ defect scope
-def defect_scope(ctx, rule_prefix, entries, which=("D1", "D3", "D4", "D5", "D6", "D8"),
+def defect_scope(ctx, rule_prefix, entries, which=("D1", "D1b", "D3", "D4", "D5", "D5b", "D6", "D8"),
                  extra_edges=None, stop=None, label="", max_depth=None, floor=1):
     """run the internal-error detectors over the call-graph closure of entries"""
     repo = ctx.repo
